@@ -27,6 +27,8 @@ CONFIGS = {
     "relbmi2": ["-O2", "-DNDEBUG", "-mbmi2"],
     "tsan": ["-O1", "-g1", "-fsanitize=thread"],
     "syntax": ["-fsyntax-only"],
+    # a second compiler front end (clang 14 with libstdc++): builtins and template machinery that g++ 12 does not have
+    "clang": ["CXX=clang++-14", "-O0"],
 }
 BASE_FLAGS = ["-std=c++20", f"-D{GUARD}", "-w", f"-I{INC}", f"-I{VERIF / 'harness' / 'cpp'}"]
 SAN_ENV = {
@@ -86,8 +88,11 @@ class CompileError(Exception):
 
 
 def compile_one(src, out, cfg, extra=(), timeout=600):
-    flags = CONFIGS[cfg]
-    cmd = ["g++"] + BASE_FLAGS + list(flags) + list(extra) + [str(src)]
+    flags = list(CONFIGS[cfg])
+    cxx = "g++"
+    if flags and flags[0].startswith("CXX="):          # a configuration may name another compiler
+        cxx = flags.pop(0)[4:]
+    cmd = [cxx] + BASE_FLAGS + flags + list(extra) + [str(src)]
     if cfg != "syntax":
         cmd += ["-o", str(out)]
         if "tsan" in cfg:
